@@ -3,7 +3,7 @@
 in-memory overlay (the /repo working tree is not touched) and runs every registered quick check; prints which checks
 report it.  Writes <dir>/matrix.json (or out.json)."""
 import json, sys, os, glob
-sys.path.insert(0, '/verif')
+sys.path.insert(0, os.environ.get('KVERIF_HOME', '/verif'))
 from kverif.selftest import apply_unified_diff
 from kverif.source import Repo
 from kverif.__main__ import run_property
